@@ -87,6 +87,11 @@ fn confirm(ctx: &Ctx, v: &ViolationRec) -> Result<Value, MachineryError> {
         batch.push(o.into_iter().next().unwrap());
     }
     let hang = batch[0].class == subject::Class::Hang;
+    if v.subject_class == "Hang" && !hang && batch[1].class != subject::Class::Hang {
+        // the run was cut off by the watchdog during exploration but completes on replay
+        // (twice): a load artefact of the harness, not a behaviour of the interpreter
+        return Ok(json!("transient-hang"));
+    }
     if batch[0].class != batch[1].class
         || (!hang && (batch[0].stdout != batch[1].stdout || batch[0].msg != batch[1].msg))
     {
@@ -155,6 +160,11 @@ fn finish(ctx: &mut Ctx) -> Result<i32, MachineryError> {
     let viols = ctx.violations.clone();
     for v in &viols {
         let cli = confirm(ctx, v)?;
+        if cli == json!("transient-hang") {
+            ctx.violation_count = ctx.violation_count.saturating_sub(1);
+            ctx.extra.insert("transient_hangs_dropped".into(), json!(true));
+            continue;
+        }
         ctx.cli_confirmations += 2;
         let h = h64(&(&v.case.src, &v.clause, v.case.tag, &v.case.cli_path));
         let dir = PathBuf::from(format!("{}/{}/{:016x}", findings_dir(), ctx.id, h));
